@@ -1,5 +1,5 @@
 (* Driver entry points for C19 (Escape / Unescape). *)
-From Verif Require Import Base.Prelude Base.Wire Model.Escape.
+From Verif Require Import Base.Prelude Base.Wire Model.Escape Model.ParseLit.
 
 Definition d_table : dec (list (Z * Z)) := d_list (d_pair d_z d_z).
 Definition tbl_fun (t : list (Z * Z)) (r : Z) : bool := negb (zassoc r t 0 =? 0).
@@ -18,7 +18,55 @@ Definition run_unescape (args : list Z) : list Z :=
   | _ => bad_case
   end.
 
+(* ---- the literal-fragment parser (Model/ParseLit.v) ---- *)
+(* oracle row of a rune: is_word_char, to_lower, is_cased, participates, ci_single, ci_set_id *)
+Record plrow := { pr_word : Z; pr_lower : Z; pr_cased : Z; pr_part : Z; pr_single : Z; pr_setid : Z }.
+Definition d_plrow : dec (Z * plrow) :=
+  dlet c <- d_z ; dlet a <- d_z ; dlet b <- d_z ; dlet d <- d_z ; dlet e <- d_z ; dlet f <- d_z ; dlet g <- d_z ;
+  d_ret (c, {| pr_word := a; pr_lower := b; pr_cased := d; pr_part := e; pr_single := f; pr_setid := g |}).
+(* a rune the harness did not foresee gets a row that cannot agree with the implementation by accident *)
+Definition pl_miss : plrow := {| pr_word := 0; pr_lower := -7; pr_cased := 0; pr_part := 0; pr_single := 0; pr_setid := -7 |}.
+Fixpoint pl_row (t : list (Z * plrow)) (c : Z) : plrow :=
+  match t with
+  | [] => pl_miss
+  | (c', r) :: t' => if c =? c' then r else pl_row t' c
+  end.
+
+Definition e_pnode (n : pnode) : list Z :=
+  match n with
+  | PnOne o c => [9; o; c]
+  | PnMulti o s => 12 :: o :: e_zlist s
+  | PnSet o id => [11; o; id]
+  | PnSetLoop o id k => [5; o; id; k]
+  | PnType t o => [t; o]
+  | PnRef o g => [13; o; g]
+  end.
+Definition e_pbody (b : pbody) : list Z :=
+  match b with
+  | BEmpty o => [0; o]
+  | BSingle n => 1 :: e_pnode n
+  | BConcat o l => 2 :: o :: e_list e_pnode l
+  end.
+Definition e_pres (r : pres) : list Z :=
+  match r with
+  | PTree (PRoot o b) => 0 :: o :: e_pbody b
+  | POutside => [1]
+  end.
+
+(* 1903: options, oracle rows, pattern -> parse result *)
+Definition run_parse_lit (args : list Z) : list Z :=
+  match (dlet o <- d_z ; dlet t <- d_list d_plrow ; dlet p <- d_zlist ; d_ret (o, t, p)) args with
+  | Some ((o, t, p), []) =>
+      let nz := fun x => negb (x =? 0) in
+      e_res e_pres
+        (parse_lit (fun c => nz (pr_word (pl_row t c))) (fun c => pr_lower (pl_row t c))
+                   (fun c => nz (pr_cased (pl_row t c))) (fun c => nz (pr_part (pl_row t c)))
+                   (fun c => nz (pr_single (pl_row t c))) (fun c => pr_setid (pl_row t c)) o p)
+  | _ => bad_case
+  end.
+
 Definition run19 (leg : Z) (args : list Z) : list Z :=
   if leg =? 1901 then run_escape args
   else if leg =? 1902 then run_unescape args
+  else if leg =? 1903 then run_parse_lit args
   else bad_case.
